@@ -206,6 +206,14 @@ var FilterArgsCompletionOverrides = map[string]bool{
 	"last-year":    true,
 }
 
+// shiftDate returns the date that is `days` away from `d`. The bool is `false`
+// if that date would be outside the range of representable dates.
+func shiftDate(d klog.Date, days int) (klog.Date, bool) {
+	t := gotime.Date(d.Year(), gotime.Month(d.Month()), d.Day()+days, 0, 0, 0, 0, gotime.UTC)
+	shifted, err := klog.NewDate(t.Year(), int(t.Month()), t.Day())
+	return shifted, err == nil
+}
+
 func (args *FilterArgs) ApplyFilter(now gotime.Time, rs []klog.Record) []klog.Record {
 	today := klog.NewDateFromGo(now)
 	qry := service.FilterQry{
@@ -219,10 +227,18 @@ func (args *FilterArgs) ApplyFilter(now gotime.Time, rs []klog.Record) []klog.Re
 		qry.AfterOrEqual = args.Period.Since()
 	}
 	if args.After != nil {
-		qry.AfterOrEqual = args.After.PlusDays(1)
+		dayAfter, ok := shiftDate(args.After, 1)
+		if !ok {
+			return nil // There is no date after the last representable one.
+		}
+		qry.AfterOrEqual = dayAfter
 	}
 	if args.Before != nil {
-		qry.BeforeOrEqual = args.Before.PlusDays(-1)
+		dayBefore, ok := shiftDate(args.Before, -1)
+		if !ok {
+			return nil // There is no date before the first representable one.
+		}
+		qry.BeforeOrEqual = dayBefore
 	}
 	if args.Today {
 		qry.AtDate = today
